@@ -14,10 +14,6 @@ open Babylon.Core Babylon.RVec
 
 def movedMark : Val := 777777
 
-/-- the harness encodes value `v > 0` as the decimal digits of `v` followed by `v % 61` filler
-characters; libstdc++ keeps strings of up to `ssoCap` characters inside the object -/
-def isHeapString (v : Val) : Bool := v != 0 && (toString v).length + v % 61 > Babylon.Gen.RVec.ssoCap
-
 def cfgOf (mode : String) : Cfg :=
   if mode == "elem" then
     { mvC := fun _ => movedMark, mvA := fun _ _ => movedMark, mvSelf := id, mvX := fun _ => movedMark,
@@ -28,8 +24,9 @@ def cfgOf (mode : String) : Cfg :=
   else if mode == "int" || mode == "swissint" then
     { mvC := id, mvA := fun x _ => x, mvSelf := id, mvX := id, rebuild := true, rebuildMove := true }
   else if mode == "stdstr" then
-    -- plain `std::string` elements: moves steal and leave "", a self-move of a heap string empties it
-    { mvC := fun _ => dflt, mvA := fun _ _ => dflt, mvSelf := fun v => if isHeapString v then dflt else v,
+    -- plain `std::string` elements: moves steal and leave "", a self-move empties the string
+    -- (libstdc++ `operator=(basic_string&&)` ends with `__str.clear()`, also when `&__str == this`)
+    { mvC := fun _ => dflt, mvA := fun _ _ => dflt, mvSelf := fun _ => dflt,
       mvX := fun _ => dflt, rebuild := false, rebuildMove := false }
   else -- str / nest / swissstr: move-construct on the same allocator steals, move-assign swaps, cross-allocator copies
     { mvC := fun _ => dflt, mvA := fun _ old => old, mvSelf := id, mvX := id, rebuild := false, rebuildMove := false }
@@ -150,7 +147,7 @@ def stepStr (s : St) (ws : List String) : Option (St × String) :=
   | "sappend" :: vs => do let x := s.str.append (← parseNats vs); some ({ s with str := x }, showS x)
   | ["sclear"] => let x := s.str.clear; some ({ s with str := x }, showS x)
   | ["sreserve", n] => do let x := s.str.stableReserve (← n.toNat?); some ({ s with str := x }, showS x)
-  | ["sresizeu", n] => do let x := s.str.resizeUninit (← n.toNat?); some ({ s with str := x }, s!"S {x.len} {x.cap}")
+  | ["sresizeu", n] => do let x := s.str.resizeUninit (← n.toNat?) 117; some ({ s with str := x }, s!"S {x.len} {x.cap}")
   | ["smeta"] => let m := s.str.updateMeta s.strMeta; some ({ s with strMeta := m }, s!"meta {m}")
   | ["sremeta"] => let x := RStr.ofMeta s.strMeta; some ({ s with str := x }, showS x)
   | _ => none
